@@ -268,3 +268,101 @@ Example reorder_example :
     spec_eval pm l 10 1%N = Some (SApp 0 0 [SApp 1 0 [SApp 3 0 [SArgT 9%N]]; SApp 2 0 [SApp 3 0 [SArgT 9%N]]]) /\
     spec_eval pm' l' 10 1%N = Some (SApp 2 0 [SApp 3 0 [SApp 0 0 [SArgT 9%N]]; SApp 1 0 [SApp 0 0 [SArgT 9%N]]]).
 Proof. do 4 eexists. repeat split; vm_compute; reflexivity. Qed.
+
+(* ---------------- acceptance of the first pass does not depend on the order ---------------- *)
+(* two different positions whose (non-Struct) providers supply the same type *)
+Definition clash (ps : list Gen.prov) : Prop :=
+  exists i j gi gj t, i <> j /\ supplies ps i gi t /\ supplies ps j gj t.
+
+Lemma fg_in_some t : forall gs gi, (exists g, In g gs /\ In t g) -> exists g0, fg t gi gs = Some g0.
+Proof.
+  induction gs as [|g r IH]; intros gi (g0 & Hin & Ht); [destruct Hin|]. simpl.
+  destruct (existsb (N.eqb t) g) eqn:E; [eauto|]. destruct Hin as [->|Hin]; [|apply IH; eauto].
+  apply existsb_eqb_in in Ht. congruence.
+Qed.
+
+Lemma add_group_total pi gi : forall ts pm, (forall t pj gj, In t ts -> Gen.assoc t pm = Some (pj, gj) -> pj = pi) ->
+  exists pm', Gen.add_group pm pi gi ts = OK pm'.
+Proof.
+  induction ts as [|t0 r IH]; intros pm H; simpl; [eauto|].
+  destruct (Gen.assoc t0 pm) as [[pj gj]|] eqn:A.
+  - rewrite (H t0 pj gj (or_introl eq_refl) A), Nat.eqb_refl. apply IH. intros t pj' gj' Hin. apply H. right. exact Hin.
+  - apply IH. intros t pj gj Hin At. destruct (Gen.assoc t pm) as [[pj' gj']|] eqn:A'.
+    + rewrite (assoc_app_some t pm _ _ A') in At. inversion At; subst. eapply H; [right; exact Hin|exact A'].
+    + rewrite (assoc_snoc_none t pm t0 (pi, gi) A') in At. destruct (N.eqb t t0); [inversion At; reflexivity|discriminate].
+Qed.
+Lemma add_groups_total pi : forall gs gi pm, (forall t pj gj, (exists g, In g gs /\ In t g) -> Gen.assoc t pm = Some (pj, gj) -> pj = pi) ->
+  exists pm', Gen.add_groups pm pi gi gs = OK pm'.
+Proof.
+  induction gs as [|g r IH]; intros gi pm H; simpl; [eauto|].
+  destruct (add_group_total pi gi g pm) as (pm1 & E1); [intros t pj gj Hin; apply H; exists g; split; [left; auto|auto]|].
+  rewrite E1. apply IH. intros t pj gj (g0 & Hg0 & Ht) At. destruct (add_group_spec pi gi g pm pm1 E1) as (S1 & _).
+  rewrite S1 in At. destruct (Gen.assoc t pm) as [[pj' gj']|] eqn:A'.
+  - inversion At; subst. eapply H; [exists g0; split; [right; exact Hg0|exact Ht]|exact A'].
+  - destruct (existsb (N.eqb t) g); [inversion At; reflexivity|discriminate].
+Qed.
+
+Lemma supplies_app_l done ps pi gi t : supplies done pi gi t -> supplies (done ++ ps) pi gi t.
+Proof. intros (p & Hp & Hs & Hf). exists p. split; [rewrite nth_error_app1; [exact Hp|eapply nth_error_lt; eauto]|auto]. Qed.
+
+Lemma pass1_total : forall ps done pm, J pm done -> ~ clash (done ++ ps) -> exists pm', Gen.pass1 pm (length done) ps = OK pm'.
+Proof.
+  induction ps as [|p r IH]; intros done pm Jd NC; simpl; [eauto|].
+  assert (E : done ++ p :: r = (done ++ [p]) ++ r) by (rewrite <- app_assoc; reflexivity).
+  assert (L : S (length done) = length (done ++ [p])) by (rewrite app_length; simpl; lia).
+  destruct (Gen.isstruct p) eqn:Es.
+  - rewrite L. apply IH; [|rewrite <- E; exact NC].
+    intros t pi gi. rewrite (Jd t pi gi). split.
+    + intros S0. apply supplies_snoc_lt; [eapply supplies_lt; eauto|exact S0].
+    + intros (p0 & Hp0 & Hs & Hf). destruct (Nat.lt_ge_cases pi (length done)) as [Hlt|Hge].
+      * rewrite (nth_error_snoc_lt done p pi Hlt) in Hp0. exists p0. auto.
+      * apply nth_error_lt in Hp0 as Hl. rewrite app_length in Hl. simpl in Hl. assert (pi = length done) by lia. subst pi.
+        rewrite nth_error_snoc_eq in Hp0. inversion Hp0; subst. congruence.
+  - destruct (add_groups_total (length done) (Gen.provides p) 0 pm) as (pm1 & G).
+    + intros t pj gj Hex At. apply Jd in At. destruct (Nat.eq_dec pj (length done)) as [|Hne]; [assumption|]. exfalso. apply NC.
+      destruct (fg_in_some t (Gen.provides p) 0 Hex) as (g0 & Hg0).
+      exists pj, (length done), gj, g0, t. split; [exact Hne|]. split; [apply supplies_app_l; exact At|].
+      exists p. split; [rewrite nth_error_app2 by lia; rewrite Nat.sub_diag; reflexivity|]. split; auto.
+    + rewrite G, L. apply IH; [|rewrite <- E; exact NC].
+      apply (pass1_J [p] done pm pm1); [simpl; rewrite Es, G; reflexivity|exact Jd].
+Qed.
+
+Theorem pass1_accepts_iff ps : (exists pm, Gen.pass1 [] 0 ps = OK pm) <-> ~ clash ps.
+Proof.
+  split.
+  - intros (pm & H) (i & j & gi & gj & t & Hne & Si & Sj).
+    assert (J0 : J pm ps).
+    { apply (pass1_J ps [] [] pm H). intros t0 pi0 gi0. simpl. split; [discriminate|]. intros (p & Hp & _). destruct pi0; discriminate. }
+    apply J0 in Si. apply J0 in Sj. congruence.
+  - intros NC. apply (pass1_total ps [] []); [|exact NC].
+    intros t pi gi. simpl. split; [discriminate|]. intros (p & Hp & _). destruct pi; discriminate.
+Qed.
+
+Lemma clash_perm ps ps' : Permutation ps ps' -> clash ps' -> clash ps.
+Proof.
+  intros P (i & j & gi & gj & t & Hne & (p & Hp & Hs & Hf) & (q & Hq & Hsq & Hfq)).
+  apply Permutation_nth_error in P. destruct P as (_ & f & Inj & Hn).
+  exists (f i), (f j), gi, gj, t. split; [intro E; apply Hne; apply Inj; exact E|].
+  split; [exists p | exists q]; rewrite <- Hn; auto.
+Qed.
+
+(* the first pass accepts a provider list exactly when it accepts every reordering of it *)
+Theorem pass1_order_independent ps ps' : Permutation ps ps' ->
+  (exists pm, Gen.pass1 [] 0 ps = OK pm) -> exists pm', Gen.pass1 [] 0 ps' = OK pm'.
+Proof.
+  intros P H. apply pass1_accepts_iff. apply pass1_accepts_iff in H. intro C. apply H.
+  (* clash_perm turns a clash of the second list into one of the first *)
+  exact (clash_perm ps ps' P C).
+Qed.
+
+(* a declaration without Struct expansions: acceptance (a provider map exists) does not depend on the order of its providers *)
+Theorem acceptance_order_independent_no_structs d d' :
+  Permutation (Gen.d_provs d) (Gen.d_provs d') -> filter Gen.isstruct (Gen.d_provs d) = [] ->
+  (exists r, dpm d = Some r) -> exists r', dpm d' = Some r'.
+Proof.
+  intros P NS (r & H). unfold dpm in *. destruct (Gen.pass1 [] 0 (Gen.d_provs d)) as [pm1|] eqn:P1; [|discriminate].
+  destruct (pass1_order_independent _ _ P (ex_intro _ pm1 P1)) as (pm1' & P1'). rewrite P1'.
+  assert (NS' : filter Gen.isstruct (Gen.d_provs d') = []).
+  { pose proof (perm_filter Gen.isstruct _ _ P) as PF. rewrite NS in PF. apply Permutation_nil in PF. exact PF. }
+  rewrite NS'. unfold Gen.pass2. simpl. eauto.
+Qed.
